@@ -172,7 +172,13 @@ func consumerSender(ctx context.Context, wg *sync.WaitGroup, urlBuffer <-chan *g
 
 			if discard {
 				logger.Debug("parsing failed, sending the item to finisher", "url", URL.Value)
-				globalHQ.finishCh <- newItem
+				// Stay stoppable: the finish channel's receiver leaves on the same context
+				select {
+				case <-ctx.Done():
+					logger.Debug("closed while sending to finisher")
+					return
+				case globalHQ.finishCh <- newItem:
+				}
 				break
 			}
 
